@@ -50,7 +50,7 @@ theorem C10_reported_dead (cfg : FDConfig) (fd : FD) (i : Id) (w : Window) (now 
     (hold : cfg.thetaNum * max cfg.maxInterval cfg.initialInterval < (now - t) * cfg.thetaDen) :
     i ∉ (fd.updateNodeLiveness cfg i now).live ∧
     (AL.lookup i (fd.updateNodeLiveness cfg i now).dead).isSome := by
-  unfold FD.updateNodeLiveness
+  unfold FD.updateNodeLiveness FD.isAlive
   rw [hw]
   simp only [C10_complete cfg w now t hb hlast hold, Bool.false_eq_true, if_false]
   refine ⟨?_, ?_⟩
@@ -69,7 +69,7 @@ theorem C10_needs_two (cfg : FDConfig) (w : Window) (now : Nat) (h : w.intervals
 
 theorem C10_no_window_not_live (cfg : FDConfig) (fd : FD) (i : Id) (now : Nat) (h : fd.window i = none) :
     i ∉ (fd.updateNodeLiveness cfg i now).live := by
-  unfold FD.updateNodeLiveness
+  unfold FD.updateNodeLiveness FD.isAlive
   rw [h]
   simp only [Bool.false_eq_true, if_false]
   intro hin
